@@ -133,14 +133,17 @@ build_body(void *arg) {
 
 /* ---------------- damage variants ---------------- */
 
-enum { DV_NOMETA = 0, DV_NOCURRENT, DV_TRUNC_HALF, DV_TRUNC_LAST, DV_TRUNC_ZERO, DV_GARBAGE_CURRENT, DV_DROP_TABLE0, DV_DROP_TABLE1, DV_REPAIR_TWICE, DV_STALE_MAN1, DV_DAMAGED_TABLE0, DV_DAMAGED_TABLE1, DV_COUNT };
+enum { DV_NOMETA = 0, DV_NOCURRENT, DV_TRUNC_HALF, DV_TRUNC_LAST, DV_TRUNC_ZERO, DV_GARBAGE_CURRENT, DV_DROP_TABLE0, DV_DROP_TABLE1, DV_REPAIR_TWICE, DV_STALE_MAN1, DV_DAMAGED_TABLE0, DV_DAMAGED_TABLE1, DV_LOG_BAD_BATCH, DV_COUNT };
 static const char *dvname[] = {"MANIFEST+CURRENT deleted", "CURRENT deleted", "MANIFEST cut in half", "MANIFEST cut 1 byte short", "MANIFEST emptied",
                                "CURRENT holds garbage", "oldest table deleted", "newest table deleted",
                                "MANIFEST+CURRENT deleted, ldb_repair run twice before the open", "MANIFEST+CURRENT deleted, a stale garbage MANIFEST-000001 left in the directory",
                                "MANIFEST+CURRENT deleted, the LAST data block of the oldest table damaged (repair run with paranoid_checks salvages what is readable)",
-                               "MANIFEST+CURRENT deleted, the FIRST data block of the newest table damaged (repair run with paranoid_checks salvages what is readable)"};
+                               "MANIFEST+CURRENT deleted, the FIRST data block of the newest table damaged (repair run with paranoid_checks salvages what is readable)",
+                               "MANIFEST+CURRENT deleted, the first record of a live log holds a malformed write batch (unknown tag, valid CRC) followed by good records"};
 
-static uint64_t dam_file;   /* number of the table damaged by the current variant (0 = none) */
+static uint64_t dam_file;   /* number of the table / log damaged by the current variant (0 = none) */
+static uint64_t dam_seq_lo, dam_seq_hi;   /* log variant: sequence range of the malformed record (hi = 0: the whole file) */
+#define IS_OPTIONAL(j, x) ((x)->file == (j)->dam_file && ((j)->dam_seq_hi == 0 || ((x)->seq >= (j)->dam_seq_lo && (x)->seq < (j)->dam_seq_hi)) && ((j)->dam_seq_hi == 0) == !(x)->from_log)
 
 static int
 apply_damage(vfs_t *v, int dv) {
@@ -213,6 +216,38 @@ apply_damage(vfs_t *v, int dv) {
       snprintf(p, sizeof(p), "%s/CURRENT", DB); vfs_remove(v, p);
       return 1;
     }
+    case DV_LOG_BAD_BATCH: {
+      /* the first physical record of a log is a FULL record followed by at least one more record: its batch gets an
+         unknown tag in its first entry and a recomputed CRC (a record the log reader hands on and the batch decoder
+         rejects); the records behind it are intact and survive */
+      for (i = 0; i < nn; i++) {
+        size_t l = strlen(names[i]);
+        const vinode_t *ino;
+        unsigned char *copy;
+        size_t len0;
+        uint32_t crc;
+        if (!(l > 4 && strcmp(names[i] + l - 4, ".log") == 0)) continue;
+        snprintf(p, sizeof(p), "%s/%s", DB, names[i]);
+        ino = vfs_inode(v, vfs_lookup(v, p));
+        if (!ino || ino->len < 7 + 13) continue;
+        len0 = (size_t)((const unsigned char *)ino->data)[4] | ((size_t)((const unsigned char *)ino->data)[5] << 8);
+        if (((const unsigned char *)ino->data)[6] != 1 || len0 < 13 || 7 + len0 + 7 > ino->len || 7 + len0 + 7 > 32768) continue;
+        copy = malloc(ino->len);
+        memcpy(copy, ino->data, ino->len);
+        dam_file = strtoull(names[i], NULL, 10);
+        dam_seq_lo = ref_le64(copy + 7);
+        dam_seq_hi = dam_seq_lo + ref_le32(copy + 7 + 8);
+        copy[7 + 12] = 7;   /* neither kTypeDeletion (0) nor kTypeValue (1) */
+        crc = ref_crc_mask(ref_crc32c(0, copy + 6, 1 + len0));
+        copy[0] = (unsigned char)crc; copy[1] = (unsigned char)(crc >> 8); copy[2] = (unsigned char)(crc >> 16); copy[3] = (unsigned char)(crc >> 24);
+        vfs_put_file(v, p, copy, ino->len);
+        free(copy);
+        snprintf(p, sizeof(p), "%s/%s", DB, man); vfs_remove(v, p);
+        snprintf(p, sizeof(p), "%s/CURRENT", DB); vfs_remove(v, p);
+        return 1;
+      }
+      return 0;
+    }
     case DV_DROP_TABLE0: case DV_DROP_TABLE1:
       if (ntab < 2) return 0;
       snprintf(p, sizeof(p), "%s/%06llu.ldb", DB, (unsigned long long)(dv == DV_DROP_TABLE0 ? tmin : tmax));
@@ -234,7 +269,7 @@ typedef struct job_s {
   char sig[64];
   char err[600];
   uint64_t outcome;
-  uint64_t dam_file;
+  uint64_t dam_file, dam_seq_lo, dam_seq_hi;
 } job_t;
 
 static void
@@ -266,7 +301,7 @@ repair_body(void *arg) {
       ver_t bi;
       memset(&bi, 0, sizeof(bi));
       for (a = 0; a < j->nall[k]; a++)
-        if (j->all[k][a].file != j->dam_file && (!bi.present || j->all[k][a].seq > bi.seq)) bi = j->all[k][a];
+        if (!IS_OPTIONAL(j, &j->all[k][a]) && (!bi.present || j->all[k][a].seq > bi.seq)) bi = j->all[k][a];
       j->best[k] = bi;
     }
   }
@@ -314,7 +349,7 @@ repair_body(void *arg) {
       int a;
       for (a = 0; a < j->nall[k]; a++) {
         ver_t *x = &j->all[k][a];
-        if (x->file == j->dam_file && (!j->best[k].present || x->seq > j->best[k].seq) &&
+        if (IS_OPTIONAL(j, x) && (!j->best[k].present || x->seq > j->best[k].seq) &&
             itp[k] == !x->del && (x->del || itv[k] == x->vid)) {
           j->best[k] = *x;
           want_present = !x->del;
@@ -455,7 +490,7 @@ explore_state(const hist_t *h, int only_dv) {
     if (only_dv >= 0 && dv != only_dv) continue;
     if (only_dv < 0 && !drv_mine(case_counter++)) continue;
     w = vfs_clone(tmpl);
-    dam_file = 0;
+    dam_file = 0; dam_seq_lo = dam_seq_hi = 0;
     if (!apply_damage(w, dv)) { vfs_free(w); continue; }
     cur_dv = dv;
     vfs_base_snapshot(w);
@@ -466,7 +501,7 @@ explore_state(const hist_t *h, int only_dv) {
       drv_case("{\"history\":\"%s\",\"cfg\":\"%s\",\"damage\":%d}", hb.p ? hb.p : "", cfgtxt, dv);
       vb_free(&hb);
     }
-    j.dam_file = dam_file;
+    j.dam_file = dam_file; j.dam_seq_lo = dam_seq_lo; j.dam_seq_hi = dam_seq_hi;
     /* a damaged table: the versions are read from the image before the damage; those of the damaged table are optional */
     if (!surviving(dam_file ? tmpl : w, j.best, j.all, j.nall, e, sizeof(e))) {
       vfs_free(w);
@@ -572,7 +607,7 @@ main(int argc, char **argv) {
   copy = strdup(cfgs);
   for (item = strtok_r(copy, ";", &save); item && !stop_now; item = strtok_r(NULL, ";", &save)) {
     if (!kcfg_parse(&cfg, item)) vh_die("bad cfg");
-    drv_note("cfg %s: every history of length <= %d over %d ops from the empty database and of length <= %d from each of 8 scripted layouts x 12 damage variants", item, len, nalpha, sdepth);
+    drv_note("cfg %s: every history of length <= %d over %d ops from the empty database and of length <= %d from each of 8 scripted layouts x 13 damage variants", item, len, nalpha, sdepth);
     enumerate(len, sdepth);
   }
   free(copy);
